@@ -134,6 +134,13 @@ def consent_tables():
         "p->keepalive.next_tick = now + delay;",
         "p->keepalive.next_tick = now + 1000 * NICE_AGENT_TIMER_TR_DEFAULT;",
         "component->selected_pair.remote_consent.last_received = now;",
+        # keepalive tick re-arming (coq/Agent/KeepaliveModel.v)
+        "if (agent->consent_freshness) { min_next_tick = now + 1000 * NICE_AGENT_TIMER_MIN_CONSENT_INTERVAL; } else { min_next_tick = now + 1000 * NICE_AGENT_TIMER_TR_DEFAULT; }",
+        "if (p->keepalive.next_tick) { if (p->keepalive.next_tick < min_next_tick) min_next_tick = p->keepalive.next_tick; if (now < p->keepalive.next_tick) continue; }",
+        "next_timer_tick = now + agent->timer_ta * 1000; goto done;",
+        "next_timer_tick = min_next_tick; done:",
+        "\"Connectivity keepalive timeout\", (next_timer_tick - now)/ 1000, priv_conn_keepalive_tick_agent_locked, NULL);",
+        "if (uname_len > 0) {",
     ]
     for n in need:
         if n not in flat:
